@@ -51,6 +51,7 @@ def gen_case(rng, tier):
         name = "e%d" % i
         pkg = rng.choice(["", "a", "a/b"])
         steps, o1, o2 = [], [], []
+        reopened = False
         nchunks = rng.choice([0, 1, 2, 3, 6])
         for _ in range(nchunks):
             size = rng.choice(sizes)
@@ -62,6 +63,15 @@ def gen_case(rng, tier):
             data = payload(rng, size, rng.choice(["ascii", "all", "badutf8", "nulcr", "esc"]), teed)
             steps.append(["out", fd, realrun.b64(data)])
             (o1 if fd == 1 else o2).append(data)
+        if nchunks and rng.random() < 0.12:
+            # after having written something, the command opens its stream again by name (shell: `echo done > /dev/stderr`,
+            # `... >> /dev/stdout`, `| tee /dev/stderr`) and writes a little more
+            fd = rng.choice([1, 2])
+            how = rng.choice(["append", "truncate"])
+            more = payload(rng, rng.choice([1, 17, 300]), "ascii", teed)
+            steps.append(["reopen", fd, how, realrun.b64(more)])
+            (o1 if fd == 1 else o2).append(more)
+            reopened = True
         extra = rng.choice([None, None, None, "close1", "close2", "bg"])
         if extra == "close1":
             steps.append(["close", 1])
@@ -77,7 +87,7 @@ def gen_case(rng, tier):
         t = gen.mk_task(pkg, name, "run_experiment", [tasks[-1]["id"]] if (tasks and rng.random() < 0.5 and not fail) else [], par=(mode == "par"), args=args, options=opts)
         tasks.append(t)
         scripts[t["id"]] = {"steps": steps, "exit": 3 if fail else 0}
-        expect[t["id"]] = {"out": realrun.b64(b"".join(o1)), "err": realrun.b64(b"".join(o2)), "fail": fail}
+        expect[t["id"]] = {"out": realrun.b64(b"".join(o1)), "err": realrun.b64(b"".join(o2)), "fail": fail, "reopened": reopened}
     if rng.random() < 0.25 and len(tasks) >= 2:
         # values that compare equal in Python but are of different types must stay distinct per task
         fam = rng.choice([[[1], [True], [1.0]], [[0, "x"], [False, "x"], [0.0, "x"]], [[1, 2], [1.0, 2], [True, 2]]])
@@ -175,6 +185,11 @@ def eval_case(case):
                 bump("c10_bytes_compared", len(want))
                 if got is None:
                     out["violations"].append({"key": "C10:log-file-missing", "msg": "%s: %s missing in %s" % (tid, fname, d), "witness": W})
+                elif got != want and exp.get("reopened") and case["mode"] == "par":
+                    # logged-only mode hands the command a regular file: re-opening it by name truncates it (or, for an
+                    # append, lets Conductor's own descriptor overwrite what was appended)
+                    out["violations"].append({"key": "C10:log-damaged-when-the-command-reopens-its-stream-in-a-parallel-slot", "msg": "%s (parallel slot): %s has %d bytes, the task wrote %d after re-opening /dev/%s by name" % (
+                        tid, fname, len(got), len(want), key), "witness": W})
                 elif got != want:
                     i = next((i for i, (x, y) in enumerate(zip(got, want)) if x != y), min(len(got), len(want)))
                     kind = "truncated" if len(got) < len(want) and want.startswith(got) else ("extra-bytes" if len(got) > len(want) and got.startswith(want) else "differs")
